@@ -458,6 +458,35 @@ def _mk_between(ne, P):
     return _mknode({"k": "binary", "op": "&&", "l": a, "r": b})
 
 
+def curr_next_names(fn):
+    """names bound to (the index entry popped for this chromosome, the entry that follows it) in the parallel source, in either spelling:
+       let (curr, next) = match IDX.pop() { Some(c) => (c, IDX.last()), None => { .. break } };
+       let Some(curr) = IDX.pop() else { .. break };  let next = IDX.last();
+    -> (curr, next, site) | None when not recognised | ("bad", site) when the pair is not (popped, following)"""
+    pat = [n for n in walk_no_nested_fn(fn.body) if n.k == "let" and n["pat"].k == "p_tuple" and len(n["pat"]["elems"]) == 2 and n.get("init") is not None
+           and ".chrom_indices.pop()" in up(n["init"]) and ".chrom_indices.last()" in up(n["init"])]
+    if len(pat) == 1 and all(e.k == "p_ident" for e in pat[0]["pat"]["elems"]):
+        init = strip(pat[0]["init"])
+        okpair = False
+        if init.k == "match" and up(strip(init["scrut"])).endswith(".chrom_indices.pop()"):
+            for a_ in init["arms"]:
+                m = re.fullmatch(r"Some\((\w+)\)", up(a_["pat"]))
+                if m and re.fullmatch(r"\(%s, ?self\.chrom_indices\.last\(\)\)" % m.group(1), up(strip(a_["body"]))):
+                    okpair = True
+        if not okpair:
+            return ("bad", pat[0])
+        return pat[0]["pat"]["elems"][0]["name"], pat[0]["pat"]["elems"][1]["name"], pat[0]
+    pops = [n for n in walk_no_nested_fn(fn.body) if n.k == "let" and n.get("init") is not None and up(strip(n["init"])).endswith(".chrom_indices.pop()")
+            and re.fullmatch(r"Some\((mut )?(\w+)\)", up(n["pat"])) and n.get("else") is not None]
+    lasts = [n for n in walk_no_nested_fn(fn.body) if n.k == "let" and n.get("init") is not None and up(strip(n["init"])).endswith(".chrom_indices.last()") and n["pat"].k == "p_ident"]
+    if len(pops) == 1 and len(lasts) == 1 and pops[0].order < lasts[0].order and pops[0].parent is lasts[0].parent:
+        between = [x for x in pops[0].parent["stmts"] if pops[0].order < x.order < lasts[0].order]
+        if any("chrom_indices" in up(x) for x in between):
+            return None
+        return re.fullmatch(r"Some\((mut )?(\w+)\)", up(pops[0]["pat"])).group(2), lasts[0]["pat"]["name"], pops[0]
+    return None
+
+
 def _int_binop(op, a, b):
     from ..rules.interp import NotPure
     if isinstance(a, int) and isinstance(b, int) and not isinstance(a, bool) and not isinstance(b, bool) and op in ("+", "-", "*"):
@@ -474,22 +503,14 @@ def ob_views(ctx, res):
     if len(fv) != 1:
         res.undecided("views/site", fn, "expected one FileView::new per chromosome, found %d" % len(fv))
         return
-    pat = [n for n in walk_no_nested_fn(fn.body) if n.k == "let" and n["pat"].k == "p_tuple" and len(n["pat"]["elems"]) == 2 and n.get("init") is not None
-           and ".chrom_indices.pop()" in up(n["init"]) and ".chrom_indices.last()" in up(n["init"])]
-    if len(pat) != 1 or not all(e.k == "p_ident" for e in pat[0]["pat"]["elems"]):
-        res.undecided("views/consecutive", fv[0], "the (current, next) pair of index entries is not bound by one `let (curr, next) = match ..pop() { Some(c) => (c, ..last()), .. }`")
+    cn = curr_next_names(fn)
+    if cn is None:
+        res.undecided("views/consecutive", fv[0], "the (current, next) pair of index entries (popped entry, the one that follows it) was not recognised")
         return
-    init = strip(pat[0]["init"])
-    okpair = False
-    if init.k == "match" and up(strip(init["scrut"])).endswith(".chrom_indices.pop()"):
-        for a_ in init["arms"]:
-            m = re.fullmatch(r"Some\((\w+)\)", up(a_["pat"]))
-            if m and re.fullmatch(r"\(%s, ?self\.chrom_indices\.last\(\)\)" % m.group(1), up(strip(a_["body"]))):
-                okpair = True
-    if not okpair:
-        res.fail("views/consecutive", pat[0], "(current, next) must be the popped index entry and the one that follows it (`Some(c) => (c, self.chrom_indices.last())`)")
+    if cn[0] == "bad":
+        res.fail("views/consecutive", cn[1], "(current, next) must be the popped index entry and the one that follows it (`Some(c) => (c, self.chrom_indices.last())`)")
         return
-    cur, nxt = [e["name"] for e in pat[0]["pat"]["elems"]]
+    cur, nxt = cn[0], cn[1]
     args = fv[0]["args"]
     if len(args) != 3:
         res.undecided("views/bounds", fv[0], "FileView::new with %d arguments" % len(args))
@@ -499,8 +520,9 @@ def ob_views(ctx, res):
         env = {cur: (3, "C"), nxt: nv}
         try:
             it = Interp(ctx.ast, BD, extern={"None": None, "path": lambda p_: ("sym", p_), "binop": _int_binop})
-            lo = it.ev(_tnorm(fn, strip(args[1])), env, 0)
-            hi = it.ev(_tnorm(fn, strip(args[2])), env, 0)
+            from ..astq import tnorm_keeping
+            lo = it.ev(tnorm_keeping(fn, strip(args[1]), (cur, nxt)), env, 0)
+            hi = it.ev(tnorm_keeping(fn, strip(args[2]), (cur, nxt)), env, 0)
         except NotPure as e:
             res.undecided("views/bounds", fv[0], "view bounds `%s`, `%s` are outside the fragment the rule evaluates (%s)" % (up(args[1]), up(args[2]), e))
             return
